@@ -19,6 +19,33 @@ class _Unsupported(Exception):
     pass
 
 
+def _copy(node):
+    """deep copy of an AST (the model's ``_parent`` links are not followed - they would drag the whole module along)"""
+    if isinstance(node, list):
+        return [_copy(x) for x in node]
+    if not isinstance(node, ast.AST):
+        return node
+    new = node.__class__()
+    for field in node._fields:
+        if hasattr(node, field):
+            setattr(new, field, _copy(getattr(node, field)))
+    for attr in ('lineno', 'col_offset', 'end_lineno', 'end_col_offset'):
+        if hasattr(node, attr):
+            setattr(new, attr, getattr(node, attr))
+    return new
+
+
+def _shallow(node):
+    new = node.__class__()
+    for field in node._fields:
+        if hasattr(node, field):
+            setattr(new, field, getattr(node, field))
+    for attr in ('lineno', 'col_offset', 'end_lineno', 'end_col_offset'):
+        if hasattr(node, attr):
+            setattr(new, attr, getattr(node, attr))
+    return new
+
+
 def _has_return(node_or_list):
     nodes = node_or_list if isinstance(node_or_list, list) else [node_or_list]
     for n in nodes:
@@ -66,15 +93,15 @@ def _convert(stmts, assign, fall_off):
             return out
         if isinstance(st, ast.If) and (_has_return(st.body) or _has_return(st.orelse)):
             rest = stmts[i + 1:]
-            b = _convert(st.body + ([] if _terminates(st.body) else copy.deepcopy(rest)), assign, fall_off)
-            o = _convert(st.orelse + ([] if _terminates(st.orelse) else copy.deepcopy(rest)), assign, fall_off)
+            b = _convert(st.body + ([] if _terminates(st.body) else _copy(rest)), assign, fall_off)
+            o = _convert(st.orelse + ([] if _terminates(st.orelse) else _copy(rest)), assign, fall_off)
             out.append(ast.copy_location(ast.If(test=st.test, body=b or [ast.Pass()], orelse=o), st))
             return out
         if isinstance(st, (ast.For, ast.While)) and _has_return(st.body) and not st.orelse and not _loop_has_break(st):
             # `for ..: if c: return E` + rest   ==   `for ..: if c: x = E; break` + `else: rest`
             body = _returns_to_breaks(st.body, assign)
             rest = _convert(stmts[i + 1:], assign, fall_off)
-            new = copy.copy(st)
+            new = _shallow(st)
             new.body, new.orelse = body, rest or [ast.Pass()]
             out.append(new)
             return out
@@ -110,7 +137,7 @@ def _returns_to_breaks(stmts, assign):
             out += assign(st.value) + [ast.copy_location(ast.Break(), st)]
             return out
         if isinstance(st, ast.If) and (_has_return(st.body) or _has_return(st.orelse)):
-            new = copy.copy(st)
+            new = _shallow(st)
             new.body = _returns_to_breaks(st.body, assign)
             new.orelse = _returns_to_breaks(st.orelse, assign)
             out.append(new)
@@ -169,7 +196,7 @@ class _Rename(ast.NodeTransformer):
 
     def visit_Name(self, n):
         if n.id in self.exprs and isinstance(n.ctx, ast.Load):
-            return ast.copy_location(copy.deepcopy(self.exprs[n.id]), n)
+            return ast.copy_location(_copy(self.exprs[n.id]), n)
         if n.id in self.names:
             return ast.copy_location(ast.Name(id=self.names[n.id], ctx=n.ctx), n)
         return n
@@ -203,7 +230,7 @@ def _expand(fn, call, is_method, caller_names, assign, fall_off, tail):
         else:
             new = p if p not in caller_names else '%s_%s' % (p, fn.name.strip('_'))
             names[p] = new
-            pre.append(ast.copy_location(ast.Assign(targets=[ast.Name(id=new, ctx=ast.Store())], value=copy.deepcopy(arg)), call))
+            pre.append(ast.copy_location(ast.Assign(targets=[ast.Name(id=new, ctx=ast.Store())], value=_copy(arg)), call))
     for loc in stored:
         if loc not in names and loc not in exprs and loc in caller_names:
             names[loc] = '%s_%s' % (loc, fn.name.strip('_'))
@@ -215,8 +242,8 @@ def _expand(fn, call, is_method, caller_names, assign, fall_off, tail):
             new = p if p not in caller_names else '%s_%s' % (p, fn.name.strip('_'))
             names[p] = new
             del exprs[p]
-            pre.append(ast.copy_location(ast.Assign(targets=[ast.Name(id=new, ctx=ast.Store())], value=copy.deepcopy(arg)), call))
-    body = [_Rename(names, exprs).visit(copy.deepcopy(st)) for st in body]
+            pre.append(ast.copy_location(ast.Assign(targets=[ast.Name(id=new, ctx=ast.Store())], value=_copy(arg)), call))
+    body = [_Rename(names, exprs).visit(_copy(st)) for st in body]
     if tail:
         return pre + body
     return pre + _convert(body, assign, fall_off)
@@ -224,7 +251,7 @@ def _expand(fn, call, is_method, caller_names, assign, fall_off, tail):
 
 def inline_view(fn_node, lookup, depth=3):
     """-> (new FunctionDef, names of the helpers that were inlined)"""
-    new = copy.deepcopy(fn_node)
+    new = _copy(fn_node)
     inlined = []
     for _ in range(depth):
         changed = _one_round(new, lookup, inlined, {fn_node.name})
@@ -328,11 +355,11 @@ def _one_round(fn, lookup, inlined, stack):
         else:
             if target_kind == 'assign':
                 def assign(e, st=st):
-                    return [ast.copy_location(ast.Assign(targets=copy.deepcopy(st.targets),
+                    return [ast.copy_location(ast.Assign(targets=_copy(st.targets),
                                                          value=e if e is not None else ast.Constant(value=None)), st)]
             elif target_kind == 'annassign':
                 def assign(e, st=st):
-                    return [ast.copy_location(ast.Assign(targets=[copy.deepcopy(st.target)],
+                    return [ast.copy_location(ast.Assign(targets=[_copy(st.target)],
                                                          value=e if e is not None else ast.Constant(value=None)), st)]
             else:
                 def assign(e, st=st):
@@ -384,7 +411,7 @@ class _Fold(ast.NodeTransformer):
     def visit_Name(self, n):
         if isinstance(n.ctx, ast.Load) and n.id in self.consts:
             self.changed = True
-            return ast.copy_location(copy.deepcopy(self.consts[n.id]), n)
+            return ast.copy_location(_copy(self.consts[n.id]), n)
         return n
 
     def visit_Compare(self, n):
